@@ -69,8 +69,9 @@ def families(tier):
     last operation of a history can only be observed by the keep-their-checker
     probes, which the earlier positions cover); build_new = whether build() (local
     class / method / def in the method) is probed on newly loaded modules too (make(),
-    the def in a function body, always is; after every operation other than import
-    both are probed on every loaded module)."""
+    the def in a function body, always is); build_after_install = whether build() is
+    probed on every loaded module after an install as well (after uninstall / leave
+    it always is, and make() is after every operation other than import)."""
     if tier == "quick":
         return [
             dict(
@@ -83,6 +84,7 @@ def families(tier):
                 sym=True,
                 no_install_from=4,
                 build_new=False,
+                build_after_install=True,
                 text="histories of length <= 4; name sets: the 5 single names and the pairs {foo.a,foo.sub} {fo,bar.baz} for the first "
                 "active hook, the 5 single names for the second; spelling variants and the pytest route at positions <= 2; first spy of a history is A; "
                 "no install at position 4; call-time definitions: make() on every newly loaded module, make() + build() on every loaded module after every "
@@ -99,10 +101,11 @@ def families(tier):
             pytest_upto=4,
             sym=False,
             no_install_from=4,
-            build_new=True,
+            build_new=False,
+            build_after_install=False,
             text="histories of length <= 4; name sets: every non-empty subset of size <= 2 of {foo, foo.a, foo.sub, fo, bar.baz} for both hooks; "
             "spelling variants at positions <= 2, pytest route at every position while no hook is active; no install at position 4; call-time definitions: "
-            "make() + build() on every newly loaded module and on every loaded module after every install / uninstall / leave",
+            "make() on every newly loaded module and on every loaded module after every install, make() + build() on every loaded module after every uninstall / leave",
         ),
         dict(
             name="T5",
@@ -113,9 +116,11 @@ def families(tier):
             pytest_upto=2,
             sym=True,
             no_install_from=5,
-            build_new=True,
+            build_new=False,
+            build_after_install=True,
             text="histories of length <= 5; name sets: the 5 single names for both hooks; spelling variants at position 1, pytest route at positions <= 2; "
-            "first spy of a history is A; no install at position 5; call-time definitions as in T4",
+            "first spy of a history is A; no install at position 5; call-time definitions: make() on every newly loaded module, make() + build() on every loaded "
+            "module after every install / uninstall / leave",
         ),
     ]
 
@@ -256,9 +261,10 @@ def _world(tmp):
     return w
 
 
-def _step(w, op, records, pre, build_new=True):
+def _step(w, op, records, pre, build_new=True, build_after_install=True):
     out = w.apply(op)
-    key, tags, extra = w.observe(new=out["new"], make_all=(op[0] != "import"), strict=(op[0] in ("uninstall", "leave")), build_new=build_new)
+    gone = op[0] in ("uninstall", "leave")
+    key, tags, extra = w.observe(new=out["new"], make_all=(op[0] != "import"), strict=gone, build_new=build_new, build_all=(gone or build_after_install))
     return out, key, tags, extra, judge(records, pre, op, out, tags, extra)
 
 
@@ -286,7 +292,7 @@ def _expand(job):
         pos = len(hist) + 1
         snap = w.snapshot()
         for op in enabled_ops(records, P, pos):
-            out, k2, t2, extra, probs = _step(w, op, records, tags, P["build_new"])
+            out, k2, t2, extra, probs = _step(w, op, records, tags, P["build_new"], P["build_after_install"])
             stats["transitions"] += 1
             alive = [r for r in records if r[3]]
             for x, e in extra.items():
@@ -593,7 +599,8 @@ def _run(ctx, tmp, pool, sw):
         call_time_definition_probes_while_only_other_hooks_are_active=stats.get("nested_probes_while_only_other_hooks_are_active", 0),
         forest_module="every forest module defines f (module level), dataclass D, make() -> def in a function body (depth 2), build() -> class in a function body "
         "(depth 2) with a method (3) that defines a def (4); the nested statements - and the decorator expressions the hook put on them - are executed when the "
-        "factory is CALLED, which the search does at every later point of the history (well-typed call, then ill-typed; after uninstall / leave both for every module)",
+        "factory is CALLED, which the search does at every later point of the history (well-typed call, which tells the spy; ill-typed call for spy-less ones and, "
+        "after uninstall / leave, for make() under a spy too)",
         alphabet=ALPHABET,
         bounds="; ".join(f"{f['name']}: {f['text']}" for f in fams) + "; IPython: histories of length <= " + ("4" if ctx.quick else "5") + " over {magic A, magic B, cell g0, cell g1}",
         exhaustive=stopped is None,
